@@ -146,6 +146,10 @@ pub struct SimEngine {
     pub hub: Arc<Hub>,
     /// Pre-genesis blocks the execution layer vouches for.
     pub pregenesis: Arc<std::collections::BTreeMap<u64, validator::PreGenesisBlock>>,
+    /// The execution layer also vouches for any externally justified block numbered at or above
+    /// this number (it does not know where consensus-certified blocks begin: enforcing the genesis
+    /// bound is the engine manager's job).
+    pub vouch_from: Option<u64>,
 }
 
 impl SimEngine {
@@ -172,6 +176,7 @@ impl SimEngine {
             persisted,
             hub,
             pregenesis: Default::default(),
+            vouch_from: None,
         }
     }
 
@@ -301,7 +306,9 @@ impl EngineInterface for SimEngine {
         block: &validator::PreGenesisBlock,
     ) -> ctx::Result<()> {
         sched_point().await;
-        if self.pregenesis.get(&block.number.0) == Some(block) {
+        if self.pregenesis.get(&block.number.0) == Some(block)
+            || self.vouch_from.is_some_and(|n| block.number.0 >= n)
+        {
             Ok(())
         } else {
             Err(anyhow::anyhow!("invalid pre-genesis block").into())
